@@ -662,7 +662,18 @@ func (o *orbitDB) DetermineAddress(ctx context.Context, name string, storeType s
 	}
 
 	// Create the database address
-	return address.Parse(path.Join("/orbitdb", manifestHash.String(), name))
+	dbAddress, err := address.Parse(path.Join("/orbitdb", manifestHash.String(), name))
+	if err != nil {
+		return nil, err
+	}
+
+	// path.Join cleans ".." segments: a name such as "../<hash>/x" would
+	// otherwise resolve to the address of another database
+	if !dbAddress.GetRoot().Equals(manifestHash) {
+		return nil, fmt.Errorf("invalid database name %q: it does not resolve to an address under its own manifest", name)
+	}
+
+	return dbAddress, nil
 }
 
 func (o *orbitDB) loadCache(directory string, dbAddress address.Address) (datastore.Datastore, error) {
